@@ -83,7 +83,12 @@ func (hs *SimpleHotStuff) CommitRule(block *hotstuff.Block) *hotstuff.Block {
 	// we commit the great-grandparent of the block if its grandchild is certified,
 	// which we already know is true because the new block contains the grandchild's certificate,
 	// and if the great-grandparent's view + 2 equals the grandchild's view.
-	if ok && ggp.View()+2 == p.View() {
+	// A block's parent hash and the block certified by its QC are separate fields, and nothing
+	// forces views to increase along QC links, so we also check that the three blocks are
+	// directly linked through their parent hashes and lie in consecutive views.
+	if ok && ggp.View()+2 == p.View() &&
+		p.Parent() == gp.Hash() && p.View() == gp.View()+1 &&
+		gp.Parent() == ggp.Hash() && gp.View() == ggp.View()+1 {
 		return ggp
 	}
 	return nil
